@@ -198,6 +198,17 @@ func TestVerifC05Framing(t *testing.T) {
 		rcSetHook(nil)
 	}
 
+	// real parallelism on one connection: every frame the server decodes carries its own call id (and is well formed)
+	for k := 0; k < 3; k++ {
+		_, wire := rcStress(16, 4000)
+		for i, p := range wire {
+			if i < 3 {
+				rep.bad("wire-malformed", "stress/%d (16 concurrent unbatched senders x 4000 requests on one connection): the server's decoder rejects the byte stream: %s", k, p)
+			}
+		}
+		rep.Scenarios++
+		rep.Distinct++
+	}
 	rng := rand.New(rand.NewSource(seed))
 	// forced: writer held between the two buffers of its frame, second writer arrives
 	for _, codec := range []compression.Codec{nil, snappy.New()} {
